@@ -10,9 +10,13 @@ base = '/tmp/seedwt'
 os.makedirs(base, exist_ok=True)
 props = [json.loads(l) for l in open('/verif/properties.jsonl')]
 used = collections.defaultdict(list)
+allused = []
 for f in sorted(glob.glob('/verif/seeded/SC*/meta.json')):
     d = json.load(open(f))
     used[d['breaks_property']].append('%s in %s' % (d['function'], d['file']))
+    e = '%s (%s)' % (d['function'], d['file'].split('/')[-1])
+    if e not in allused:
+        allused.append(e)
 tmpl = open('/verif/tools/seed_prompt_template.txt').read()
 subprocess.run(['git', '-C', '/repo', 'worktree', 'prune'])
 for i, p in enumerate(props):
@@ -29,7 +33,8 @@ for i, p in enumerate(props):
     t = tmpl.replace('__WT__', wt).replace('__PROP__', pf).replace('__IDL__', sc.lower()).replace('__ID__', sc)
     avoid = ('\n\nEarlier experiments on this property already changed the following functions; choose a DIFFERENT function and a different '
              'mechanism of the property (study ALL the anchors, mechanisms and state the property names; helper functions, codecs, option '
-             'handling, error paths, platform-specific files and rarely used public methods are all fair game): ' + '; '.join(used[pid]) + '.')
+             'handling, error paths, platform-specific files and rarely used public methods are all fair game): ' + '; '.join(used[pid]) + '. '
+             'Experiments on OTHER properties already changed these functions, so avoid them too (several independent experimenters landed on the same edit): ' + '; '.join(allused) + '.')
     t = t.replace('remove it when done.', 'remove it when done.' + avoid, 1)
     open('%s/prompt-R%d%s.txt' % (base, rnd, pid), 'w').write(t)
     print(pid, sc, wt)
